@@ -84,6 +84,9 @@ class BMHooks(Hooks):
         return NotImplemented
 
     def truth(self, it, term):
+        # stored values may be falsy as Python objects (False, "", empty collections): their truthiness is unknown
+        if isinstance(term, Sym) and term.name in VALUE_SYMS:
+            return None
         if isinstance(term, Sym):
             return True
         if isinstance(term, App) and term.op in ('micheline', 'parsed'):
@@ -93,6 +96,9 @@ class BMHooks(Hooks):
         if isinstance(term, App) and term.op == 'is' and isinstance(term.args[1], (Sym, App)) and isinstance(term.args[0], Obj):
             return False
         return None
+
+
+VALUE_SYMS = {'v', 'newval', 'chainval', 'probe_v'}
 
 
 def state(ctx: Any = Sym('context')) -> Obj:
